@@ -5,6 +5,7 @@ package plugin
 
 import (
 	"encoding/json"
+	"fmt"
 	"time"
 )
 
@@ -45,18 +46,33 @@ func parseJSON(input []byte) (*logEntry, error) {
 	}
 
 	// Parse hclog-specific objects
+	// The reserved fields must be strings. A line that is valid JSON but is not
+	// an hclog entry (for example {"@message": 1}) is reported as an error so
+	// that the caller logs it verbatim instead of panicking on the assertion.
 	if v, ok := raw["@message"]; ok {
-		entry.Message = v.(string)
+		s, ok := v.(string)
+		if !ok {
+			return nil, fmt.Errorf("@message is %T, not a string", v)
+		}
+		entry.Message = s
 		delete(raw, "@message")
 	}
 
 	if v, ok := raw["@level"]; ok {
-		entry.Level = v.(string)
+		s, ok := v.(string)
+		if !ok {
+			return nil, fmt.Errorf("@level is %T, not a string", v)
+		}
+		entry.Level = s
 		delete(raw, "@level")
 	}
 
 	if v, ok := raw["@timestamp"]; ok {
-		t, err := time.Parse("2006-01-02T15:04:05.000000Z07:00", v.(string))
+		s, ok := v.(string)
+		if !ok {
+			return nil, fmt.Errorf("@timestamp is %T, not a string", v)
+		}
+		t, err := time.Parse("2006-01-02T15:04:05.000000Z07:00", s)
 		if err != nil {
 			return nil, err
 		}
